@@ -85,14 +85,20 @@ def run(tier):
         src = source.load_all()
         for q in ("RungeKuttaIntegrator.algebraic_system", "RungeKuttaIntegrator.step", "RungeKuttaIntegrator.__call__"):
             R.under_contract(src.func(C02.FT, q))
-        for n in names:
-            C02.check_algebraic_system(C02.make_executor(src, reg), reg, src, n, d["methods"][n])
-            C02.check_rk_step(C02.make_executor(src, reg), reg, src, n, d["methods"][n])
-        C02.check_call_skeleton(C02.make_executor(src, reg), reg, src, True, False)
-        C02.check_call_skeleton(C02.make_executor(src, reg), reg, src, True, True)
+        def part(label, fn):
+            # each function of each method decided on its own (an undecided one is named and does not hide the others)
+            try:
+                return fn()
+            except Unsupported as e:
+                reg.undecided("%s/%s/executor-unsupported" % (PID, label), "unsupported", "executor", str(e))
         from . import intcall
+        for n in names:
+            part("algebraic_system[%s]" % n, lambda: C02.check_algebraic_system(C02.make_executor(src, reg), reg, src, n, d["methods"][n]))
+            part("step[%s]" % n, lambda: C02.check_rk_step(C02.make_executor(src, reg), reg, src, n, d["methods"][n]))
+        part("__call__[implicit]/unrolled", lambda: C02.check_call_skeleton(C02.make_executor(src, reg), reg, src, True, False))
+        part("__call__[implicit,adaptive]/unrolled", lambda: C02.check_call_skeleton(C02.make_executor(src, reg), reg, src, True, True))
         for adaptive in (False, True):
-            intcall.check_rk_call_unbounded(reg, src, PID, True, adaptive)          # every retry budget: loop cut by an invariant
+            part("__call__[implicit%s]/cut-loop" % (",adaptive" if adaptive else ""), lambda: intcall.check_rk_call_unbounded(reg, src, PID, True, adaptive))          # every retry budget
         for o in reg.obligations:
             if o.name.startswith("C02/"):
                 o.name = o.name.replace("C02/", PID + "/", 1)
